@@ -17,8 +17,8 @@
 
   Side conditions: `StableCommand` as in C09 (findings F11, F14, JStable content; the disabled-cache
   condition is gone: finding F18 was fixed in the code, commit e8ce0ad, and the condition was removed from
-  `StableCommand`). Interpolating before signing, the YAML leg and real key material / JWS encoding are covered by
-  the correspondence and the end-to-end oracle of the harness only (partial there).
+  `StableCommand`). The YAML leg is in Props/C02Y.lean. Interpolating before signing and real key material / JWS
+  encoding are covered by the correspondence and the end-to-end oracle of the harness only (partial there).
 -/
 import GoPipeline.Lemmas.SignedRoundtrip
 import GoPipeline.Props.C01   -- `toyScheme` (non-vacuity example at the end)
